@@ -655,6 +655,24 @@ class Driver:
                         for pg, nm, v in m.all_data(u2):
                             d = [x for x in got[0].get_data(nm) if x is not None]
                             rec.check("C04.copy", bool(d) and eq(d[0].values, v), op=kind, cls="values", attr="", detail=f"copy of hole {hm2['name']} data {nm!r}: {short(repr(d[0].values.tolist() if d and d[0].values is not None else None), 160)}; source model {short(repr(v.tolist()), 160)}")
+                    # edit the copy (update, rename, remove): nothing of it may reach the source, which stays open
+                    for hcopy in list(g2.children):
+                        datas = [c for c in hcopy.children if hasattr(c, "values") and not c.name.upper().startswith(("DEPTH", "FROM", "TO"))]
+                        if not datas:
+                            continue
+                        dd = rng.choice(datas)
+                        how = rng.choice(["update", "remove", "rename"])
+                        try:
+                            if how == "update" and dd.values is not None and len(dd.values):
+                                dd.values = m.fresh(len(dd.values), rng, kind=kind_of_values(dd.values))
+                            elif how == "remove":
+                                w2.remove_entity(dd)
+                            elif how == "rename":
+                                dd.name = f"R{kind_of_values(dd.values)[0]}9" if dd.values is not None and len(dd.values) else dd.name
+                            rec.see("edits-in-the-copy")
+                        except Exception as exc:  # noqa: BLE001
+                            self.refuse("copy-edit:" + how, exc)
+                        dd = None
             except Exception as exc:  # noqa: BLE001
                 self.refuse(kind, exc)
             finally:
